@@ -166,30 +166,33 @@ Proof. exact (ex_stuck ABS NOLIM). Qed.
 
 (* ---- "can always complete" (Conc/ThreadQProgress.v): no reachable state is a trap.  [canreach P s]: some finite
    continuation from s, made of steps of the internal thread and of threads that still owe it a signal only
-   ([helper]), ends in a state satisfying P; proved with a measure that each such step decreases. ---- *)
+   ([helper]), ends in a state satisfying P; proved with a measure that each such step decreases.  Premise of these
+   three: the subclass's MessageReceivedFromOwner sends replies only, no Messages to the internal thread itself (a
+   thread that keeps feeding its own queue need never drain it); all the other theorems hold for any reaction,
+   self-sends included. ---- *)
 
 (* from every reachable state with a live internal thread: it can finish, or receive everything queued and block *)
-Theorem c11_can_drain : forall react m e s,
+Theorem c11_can_drain : forall react, (forall x, Forall (fun cm => fst cm = CO) (fst (react x))) -> forall m e s,
   reachable_if false ABS NOLIM react any_label m e s -> g_ist (s_g s) = ILive ->
   canreach ABS NOLIM react (fun s' => reachable_if false ABS NOLIM react any_label m e s' /\ drained s') s.
-Proof. exact (fun react => can_drain ABS NOLIM react eq_refl). Qed.
+Proof. exact (fun react H => can_drain ABS NOLIM react eq_refl H). Qed.
 Print Assumptions c11_can_drain.
 
 (* shutdown can always run to completion: once a NULL Message is queued for (or taken by) a live thread, it can finish *)
-Theorem c11_shutdown_can_complete : forall react m e s,
+Theorem c11_shutdown_can_complete : forall react, (forall x, Forall (fun cm => fst cm = CO) (fst (react x))) -> forall m e s,
   reachable_if false ABS NOLIM react any_label m e s -> g_ist (s_g s) = ILive -> null_seen s ->
   canreach ABS NOLIM react (fun s' => reachable_if false ABS NOLIM react any_label m e s' /\ g_ist (s_g s') = IExited) s.
-Proof. exact (fun react => shutdown_can_complete ABS NOLIM react eq_refl). Qed.
+Proof. exact (fun react H => shutdown_can_complete ABS NOLIM react eq_refl H). Qed.
 Print Assumptions c11_shutdown_can_complete.
 
 (* every queued Message can be received: in order, all of them unless the thread finishes first *)
-Theorem c11_queued_can_be_received : forall react m e s,
+Theorem c11_queued_can_be_received : forall react, (forall x, Forall (fun cm => fst cm = CO) (fst (react x))) -> forall m e s,
   reachable_if false ABS NOLIM react any_label m e s -> g_ist (s_g s) = ILive ->
   canreach ABS NOLIM react (fun s' => reachable_if false ABS NOLIM react any_label m e s' /\ exists got,
               c_rcvd (g_ci (s_g s')) = c_rcvd (g_ci (s_g s)) ++ got /\
               got ++ c_q (g_ci (s_g s')) = c_q (g_ci (s_g s)) /\
               (g_ist (s_g s') = IExited \/ c_q (g_ci (s_g s')) = [])) s.
-Proof. exact (fun react => queued_can_be_received ABS NOLIM react eq_refl). Qed.
+Proof. exact (fun react H => queued_can_be_received ABS NOLIM react eq_refl H). Qed.
 Print Assumptions c11_queued_can_be_received.
 
 (* the premises of c11_shutdown_can_complete are met by c11_ex_shutdown_waiting's state (a NULL Message is queued) *)
@@ -203,3 +206,32 @@ Theorem c11_notification_counts_are_uint32 : forall react ok m e s,
   reachable_if false ABS NOLIM react ok m e s -> wcb NOLIM (s_g s).
 Proof. exact (notification_counts_are_uint32 false ABS). Qed.
 Print Assumptions c11_notification_counts_are_uint32.
+
+(* ---- the owner's user-registered socket set (SOCKET_SET_READ) and the B_IO_READY return path ---- *)
+
+(* a blocked owner is woken when its registered user socket becomes ready-for-read *)
+Theorem c11_user_socket_wakes_owner : forall react s w,
+  g_sockets (s_g s) = true -> l_pc (s_l s 0) = PRecvPark CO w ->
+  u_reg (g_usr (s_g s)) = true -> 0 < u_bytes (g_usr (s_g s)) ->
+  exists x, sys_step false ABS NOLIM react s (LStep (U 0) CRun) = Some x.
+Proof. exact (user_socket_wakes_owner ABS NOLIM). Qed.
+Print Assumptions c11_user_socket_wakes_owner.
+
+(* B_IO_READY is truthful: returned only when the registered user socket is ready and the signal socket is not (a pending
+   signal has precedence: the queue is polled instead), and IsOwnerThreadSocketReady() then says yes *)
+Theorem c11_io_ready_is_truthful : forall react s t c s' ev,
+  sys_step false ABS NOLIM react s (LStep (U t) c) = Some (s', ev) -> In (ERet RIoReady) ev ->
+  uready (s_g s) = true /\ readable (s_g s) CO = false /\ u_flag (g_usr (s_g s')) = true.
+Proof. exact (io_ready_is_truthful ABS NOLIM). Qed.
+Print Assumptions c11_io_ready_is_truthful.
+
+Example c11_ex_user_socket : exists s, reachable_if false ABS NOLIM react0 any_label true false s /\
+  l_pc (s_l s 0) = PRecvPark CO WNever /\ uready (s_g s) = true /\ readable (s_g s) CO = false.
+Proof. exact (ex_user_socket ABS NOLIM). Qed.
+
+(* the model includes reactions that send to the internal thread itself (SendMessageToInternalThread from within
+   MessageReceivedFromOwner): a reachable state in which the thread has fed its own, empty, queue *)
+Example c11_ex_self_send : exists s, reachable_if false ABS NOLIM react_self any_label true false s /\
+  g_ist (s_g s) = ILive /\ l_pc (g_il (s_g s)) = PSendSig CI true /\ c_q (g_ci (s_g s)) = [Some 105] /\
+  c_rcvd (g_ci (s_g s)) = [Some 5].
+Proof. exact (ex_self_send ABS NOLIM). Qed.
